@@ -147,11 +147,68 @@ def check_kripke(inp):
                 f = _check_sub(dict(inp, after='replace_labelling_function'), K2, V, nodes, set(R), expL2, expS0)
                 if f is not None:
                     return f
+        # a structure that GREW after construction (add_edge between its states) and one that the
+        # model checkers have been run on: copies are taken of the structure as it is NOW
+        if inp.get('grow', True) and nodes:
+            order = sorted(nodes, key=repr)
+            K3 = K.clone()
+            f = _check_sub(dict(inp, after='clone, before add_edge'), K3, set(order[:2]), nodes, set(R), expL, expS0)
+            if f is not None:
+                return f
+            K3.clone()
+            missing = [(a, b) for a in order for b in order if (a, b) not in set(R)]
+            added = missing[::2][:3]
+            for (a, b) in added:
+                K3.add_edge(a, b)
+            R3 = set(R) | set(added)
+            f = _inspect(inp, K3, nodes, R3, expL, expS0, 'after add_edge%r' % (added,))
+            if f is None:
+                f = _inspect(inp, K3.clone(), nodes, R3, expL, expS0, 'clone after add_edge%r' % (added,))
+            if f is None:
+                f = _inspect(inp, K, nodes, set(R), expL, expS0, 'original after add_edge on its clone')
+            if f is not None:
+                return f
+            for V in ([set(c) for c in G.all_subsets(order)] if len(order) <= 3 else [set(order[:2]), set(order[1:]), set(order)]):
+                f = _check_sub(dict(inp, after='add_edge%r' % (added,)), K3, V, nodes, R3, expL, expS0)
+                if f is not None:
+                    return f
+        if inp.get('grow', True) and nodes and (len(R) + 2 * len(nodes)) % 4 == 0:
+            order = sorted(nodes, key=repr)
+            fs = _formulas()
+            with core.quiet():
+                for call in (lambda: fs[0][0].modelcheck(K, fs[0][1]), lambda: fs[1][0].modelcheck(K, fs[1][1]),
+                             lambda: fs[2][0].modelcheck(K, fs[2][1]),
+                             lambda: fs[0][0].modelcheck(K, fs[3][1], F=[set(order[:1])]),
+                             lambda: K.get_fair_states([set(order[:1])])):
+                    try:
+                        call()
+                    except Exception:
+                        pass                     # what the checkers answer is not this property's business
+            f = _inspect(inp, K, nodes, set(R), expL, expS0, 'original after model checking')
+            if f is None:
+                f = _inspect(inp, K.clone(), nodes, set(R), expL, expS0, 'clone after model checking')
+            if f is not None:
+                return f
+            for V in [set(order[:2]), set(order)]:
+                f = _check_sub(dict(inp, after='model checking'), K, V, nodes, set(R), expL, expS0)
+                if f is not None:
+                    return f
     except core.HarnessError:
         raise
     except Exception as e:
         return Failure('kripke', inp, 'no exception', 'raised %s: %s' % (type(e).__name__, e))
     return None
+
+
+_FORMULAS = []
+
+
+def _formulas():
+    if not _FORMULAS:
+        from pyModelChecking import CTL, LTL, CTLS
+        _FORMULAS.extend([(CTL, CTL.EG(CTL.Not('p'))), (CTLS, CTLS.A(CTLS.F(CTLS.G('p')))),
+                          (LTL, LTL.A(LTL.U('p', 'q'))), (CTL, CTL.AG('p'))])
+    return _FORMULAS
 
 
 def _inspect(inp, K, nodes, R, L, S0, what):
@@ -189,7 +246,8 @@ def _check_sub(inp, K, V, nodes, R, L, S0):
     total = keep <= set(a for a, _ in indR)
     rec = dict(inp, V_used=_txt(V))
     try:
-        sub = K.get_substructure(set(V))
+        # V is a set; a frozenset is one too
+        sub = K.get_substructure(frozenset(V) if len(V) % 2 else set(V))
         built = True
     except RuntimeError:
         built = False
@@ -214,8 +272,18 @@ def _check_sub(inp, K, V, nodes, R, L, S0):
     f = _inspect(rec, sub2, keep, indR, dict((s, L[s]) for s in keep), S0 & keep, 'substructure of the substructure')
     if f is not None:
         return f
+    # the caller goes on using the substructure: a transition added to it is not added to K
+    order = sorted(keep, key=repr)
+    miss = [(a, b) for a in order for b in order if (a, b) not in indR]
+    if miss:
+        sub.add_edge(*miss[0])
+        sub.labels(order[0]).add('mut-sub')
+        f = _inspect(rec, sub2, keep, indR, dict((s, L[s]) for s in keep), S0 & keep,
+                     'substructure of the substructure after add_edge%r on the substructure' % (miss[0],))
+        if f is not None:
+            return f
     # the original is untouched
-    return _inspect(rec, K, nodes, R, L, S0, 'original after get_substructure')
+    return _inspect(rec, K, nodes, R, L, S0, 'original after get_substructure' + (' and add_edge%r on the result' % (miss[0],) if miss else ''))
 
 
 CHECKS = {'kripke': check_kripke}
